@@ -10,6 +10,8 @@ package main
 //   hostile  - structured hostile JSON-RPC documents (single / batch, every element kind, damaged bytes) over every
 //              transport (http, websocket, ipc stream) of a server running in a CHILD process (rpcchild); reply
 //              shapes compared with the classifier model (RpcMsg.v)
+//   readers  - every read method of the ledger and embedded apis through the real server (child process readchild) on a
+//              ledger that holds what relay / sync can put there, every paged list walked page by page
 import (
 	"os"
 
@@ -21,5 +23,9 @@ func main() {
 		rpcChildMain(os.Args[2:])
 		return
 	}
-	Main(map[string]Runner{"paging": runPaging, "json": runJson, "server": runServer, "rewards": runRewards, "hostile": runHostile})
+	if len(os.Args) > 3 && os.Args[1] == "readchild" {
+		rpcChildReaders(os.Args[2:])
+		return
+	}
+	Main(map[string]Runner{"paging": runPaging, "json": runJson, "server": runServer, "rewards": runRewards, "hostile": runHostile, "readers": runReaders})
 }
